@@ -10,7 +10,8 @@ TIERS = {
 REQUIRED_PROBES = ['resume_skipped_and_processed', 'crash_inside_batch', 'crash_before_first_write',
                    'crash_with_2plus_pages_partial', 'id_with_extension_token_or_alias', 'multi_crash_history',
                    'configurations_enumerated', 'pool_runs', 'page_failed_transiently', 'unrelated_files_in_output_folders', 'lmdb_line_output',
-                   'input_pages_arriving_before_the_resume']
+                   'input_pages_arriving_before_the_resume', 'output_root_with_metacharacters',
+                   'earlier_run_requested_fewer_outputs']
 RULE = ('layer A (fault enumeration): for each seeded configuration (pipeline mode, 1-4 pages, 0-3 lines, page-id '
         'class incl. dotted ids / ids containing .xml/.jpg/.logits / alias pairs, subset of requested outputs - all '
         '31 subsets are cycled -, decoder on/off, image extension, listdir order, clock jumps) EVERY single kill '
